@@ -180,7 +180,8 @@ TupM3(v, T, env, D, s) ==
                   \cup { M3(v.es[i], T.r[1], env, D, s) : i \in (n + 1)..m } )
 
 M3(v, T, env, D, s) ==
-  CASE T.t = "prim"  -> PrimM3(v, T.p)
+  CASE v.k = "hole"  -> M3(VUndef, T, env, D, s)          \* a missing index of a sparse array reads as undefined
+    [] T.t = "prim"  -> PrimM3(v, T.p)
     \* deviation "fractionalLiteralTruncated": the compiler keeps 9 fractional digits by truncation, so a numeric literal type whose
     \* fraction is not exact after `* 1e9` (3.14159 -> 3.141589999) is compiled to another number and rejects its own value
     [] T.t = "lit"   -> IF "fractionalLiteralTruncated" \in D /\ T.v.k = "num" /\ T.v.n \in InexactFractions /\ v = T.v THEN "F" ELSE B3(v = T.v)
